@@ -6,6 +6,7 @@ import AcraModel.Wire.PgExtLemmas
 import AcraModel.Wire.PgDescribeLemmas
 import AcraModel.Wire.MysqlColDefLemmas
 import AcraModel.Wire.MysqlExecuteLemmas
+import AcraModel.Typed.RowLemmas
 /-!
 # C12 — relayed messages stay byte-identical; rewritten ones stay well-formed
 
@@ -19,6 +20,7 @@ and are restated here under the property's names.
 * part 5 – MySQL column definitions (`decryptor/mysql/column_field.go`, `type_conversion.go`)
 * part 6 – MySQL COM_STMT_EXECUTE parameters (`decryptor/mysql/{packet.go,prepared_statements.go}`)
 * part 7 – PostgreSQL RowDescription / ParameterDescription (`decryptor/postgresql/pg_decryptor.go` over pgproto3)
+* part 8 – the decoder → encoder subscribers on columns without a setting (`decryptor/{postgresql,mysql}/data_encoder.go`)
 -/
 namespace AcraModel.Props.C12
 open AcraModel AcraModel.Wire.LenEnc Generated.LenEnc
@@ -715,6 +717,35 @@ theorem describe_relay_identity (p : Packet) (its : List (Option Nat)) :
   · intro h; simp [handleParameterDescription, h]
   · intro fs h hn; simp [handleRowDescription, h, hn]
   · intro fs h hn; simp [handleRowDescription, h, hn]
+
+/-! ## part 8 — columns without any setting through the decoder → encoder subscribers -/
+
+/-- **Relay identity of the PostgreSQL subscriber chain – partial.** A column value for which no setting is matched and
+that nobody decrypts leaves `PgSQLDataDecoderProcessor → PgSQLDataEncoderProcessor` exactly as it arrived – in either
+result format, whether or not it looks like bytea hex / escape text (the decoder's decoded form is dropped and the saved
+original is given back) – EXCEPT a text that starts with `\x` and is not valid hex, which makes the decoder fail and
+the row is refused (known finding `pg-chain-hex-lookalike`; the second disjunct is exactly that input class). -/
+theorem relay_identity_pg_chain_partial (binary : Bool) (d : Bytes) :
+    Typed.pgChainNoSetting binary d = .ok d ∨
+      (Wire.Bytea.decodeEscaped d = .error .hex ∧ Typed.pgChainNoSetting binary d = .err) :=
+  Typed.pgChainNoSetting_identity binary d
+
+/-- **Counterexample (known finding `pg-chain-hex-lookalike`).** The text `\xZZ` of a column without any setting is
+not relayed: the row is refused. -/
+theorem relay_identity_pg_chain_counterexample : Typed.pgChainNoSetting false [92, 120, 90, 90] = .err := by decide
+
+/-- **Relay identity of the MySQL subscriber chain.** A column value without a setting leaves
+`DataDecoderProcessor → DataEncoderProcessor` in the wire form it arrived in: text protocol – the length-encoded value,
+for every column type; binary protocol – the length-encoded value for string/blob-like types, and for the fixed-width
+integer types (TINY, SHORT, YEAR, INT24, LONG, LONGLONG) the very `k` bytes received (binary → decimal text → binary is
+the identity on every `k`-byte pattern). FLOAT / DOUBLE columns are outside the model (strconv float formatting;
+covered by the direct oracle `my-chain-identity-bin`). -/
+theorem relay_identity_my_chain (t : Nat) (v : Bytes) :
+    Typed.myChainNoSetting false t v = .ok (Typed.lenenc v) ∧
+    (Typed.blobLike t → Typed.myChainNoSetting true t v = .ok (Typed.lenenc v)) ∧
+    (∀ k, Typed.intWidth t = some k → v.length = k → Typed.myChainNoSetting true t v = .ok v) :=
+  ⟨Typed.myChainNoSetting_text t v, fun hb => Typed.myChainNoSetting_blob t v hb,
+   fun k hk hv => Typed.myChainNoSetting_int t k v hk hv⟩
 
 /-! ## no panics (the modelled readers and rewriters, whatever the input; collected into C14 by the lead) -/
 
